@@ -69,8 +69,10 @@ def check_arrays(ra1, dec1, ra2, dec2, s, chunk, k, sep=None):
             info['outcome'] = 'ok:refused-chunksize'
             return [], info
         if 'cosDecMin' in msg:
-            g = S.chunk_geometry(ra1, dec1, S.effective_chunk(s, chunk, False), max_cells=0)
-            trig = ':top-decBound-above-90' if g.get('top_above_90') else ''
+            # the code may or may not clamp the chunk size to 4 s: the predicate holds if either layout shows it
+            above = any(S.chunk_geometry(ra1, dec1, S.effective_chunk(s, chunk, c4), max_cells=0).get('top_above_90')
+                        for c4 in (False, True))
+            trig = ':top-decBound-above-90' if above else ''
             return [('spherematch:exception:cosDecMin' + trig, msg)], info
         return [('spherematch:exception:PydlutilsException', msg)], info
     except Exception as e:     # noqa
@@ -117,8 +119,10 @@ def check_arrays(ra1, dec1, ra2, dec2, s, chunk, k, sep=None):
             seen = {}
             for i, j in idx[:400]:
                 i, j = int(i), int(j)
-                trig = S.lost_pair_trigger(ra1, dec1, i, ra2[j], dec2[j], s, S.effective_chunk(s, chunk, False),
-                                            S.chunk_class(s, chunk), GUARD_B)
+                cc = S.chunk_class(s, chunk)
+                trig = S.lost_pair_trigger(ra1, dec1, i, ra2[j], dec2[j], s, S.effective_chunk(s, chunk, False), cc, GUARD_B)
+                if trig == cc and chunk is not None and chunk < 4.0 * s:     # layout if the code clamps to 4 s
+                    trig = S.lost_pair_trigger(ra1, dec1, i, ra2[j], dec2[j], s, 4.0 * s, cc, GUARD_B)
                 if trig not in seen:
                     seen[trig] = (i, j)
             info['first_missing'] = {}
